@@ -101,7 +101,7 @@ func (s scen) String() string {
 func Spec() *evid.Spec {
 	setup := func(ch *evid.Child) {
 		ch.Data = &state{env: dsim.NewEnv(), verified: map[[32]byte]bool{}}
-		dsim.QueueWatchdog = 30 * time.Second
+		dsim.QueueWatchdog = 8 * time.Second // slow after 8 s, not happening after 40 s
 	}
 	return &evid.Spec{
 		ID:    "C05",
